@@ -1,11 +1,15 @@
 package main
 
 import (
+	"encoding/base64"
 	"encoding/json"
+	"strings"
 	"fmt"
 	"math/rand"
 	"sort"
 
+	"github.com/golang-jwt/jwt"
+	sapi "github.com/resonatehq/resonate/internal/app/subsystems/api"
 	"github.com/resonatehq/resonate/internal/kernel/t_aio"
 	"github.com/resonatehq/resonate/internal/kernel/t_api"
 	"github.com/resonatehq/resonate/internal/verif/project"
@@ -38,6 +42,126 @@ type driver struct {
 	sched    []string
 	crons    []string
 	converge bool
+	ntrav    int
+}
+
+// ---- search: every search goes through the real API helper (state names, limits, cursor
+// decoding) and every traversal follows the real (JWT) cursors to the end
+
+func (d *driver) pattern() string {
+	return d.pick([]string{"*", "a*", "*x", "a*x", "*.*", "b*", "a.x", "*b*", "*.x"})
+}
+
+func (d *driver) searchPromises() *t_api.Request {
+	h := sapi.New(nil, "verif")
+	tags := map[string]string(nil)
+	if d.r.Intn(4) == 0 {
+		tags = map[string]string{"a": "b"}
+	}
+	req, e := h.SearchPromises(d.pattern(), d.pick([]string{"", "pending", "resolved", "rejected"}), tags, []int{1, 1, 2, 2, 3, 5, 100}[d.r.Intn(7)], "")
+	if e != nil {
+		panic(e)
+	}
+	d.ntrav++
+	trav := fmt.Sprintf("t%d", d.ntrav)
+	d.follow(trav, 1, "promise")
+	return &t_api.Request{Kind: t_api.SearchPromises, SearchPromises: req}
+}
+
+func (d *driver) searchSchedules() *t_api.Request {
+	h := sapi.New(nil, "verif")
+	req, e := h.SearchSchedules(d.pick([]string{"*", "sc*", "*1", "sc2"}), nil, []int{1, 1, 2, 100}[d.r.Intn(4)], "")
+	if e != nil {
+		panic(e)
+	}
+	d.ntrav++
+	trav := fmt.Sprintf("t%d", d.ntrav)
+	d.follow(trav, 1, "schedule")
+	return &t_api.Request{Kind: t_api.SearchSchedules, SearchSchedules: req}
+}
+
+// follow registers, for the request about to be submitted, the continuation of the
+// traversal: when the page arrives with a cursor, the cursor is encoded (real JWT),
+// sometimes forged, decoded again by the real API helper, and the next page is requested.
+func (d *driver) follow(trav string, page int, what string) {
+	w := d.w
+	rid := w.nextRid()
+	w.meta[rid] = M{"trav": trav, "page": int64(page)}
+	w.onReply[rid] = func(res *t_api.Response) {
+		h := sapi.New(nil, "verif")
+		var token string
+		var err error
+		switch what {
+		case "promise":
+			if res.SearchPromises == nil || res.SearchPromises.Cursor == nil {
+				return
+			}
+			token, err = res.SearchPromises.Cursor.Encode()
+		default:
+			if res.SearchSchedules == nil || res.SearchSchedules.Cursor == nil {
+				return
+			}
+			token, err = res.SearchSchedules.Cursor.Encode()
+		}
+		if err != nil {
+			return
+		}
+		// forged cursors: same claims signed with another key, or a tampered payload
+		if d.r.Intn(6) == 0 {
+			forged := forge(token, d.r.Intn(2) == 0)
+			var ferr *sapi.Error
+			if what == "promise" {
+				_, ferr = h.SearchPromises("", "", nil, 0, forged)
+			} else {
+				_, ferr = h.SearchSchedules("", nil, 0, forged)
+			}
+			w.tr.emit(M{"e": "cursor", "t": w.now, "trav": trav, "forged": true, "accepted": ferr == nil})
+		}
+		var next *t_api.Request
+		if what == "promise" {
+			req, e := h.SearchPromises("", "", nil, 0, token)
+			w.tr.emit(M{"e": "cursor", "t": w.now, "trav": trav, "forged": false, "accepted": e == nil})
+			if e != nil {
+				return
+			}
+			next = &t_api.Request{Kind: t_api.SearchPromises, SearchPromises: req}
+		} else {
+			req, e := h.SearchSchedules("", nil, 0, token)
+			w.tr.emit(M{"e": "cursor", "t": w.now, "trav": trav, "forged": false, "accepted": e == nil})
+			if e != nil {
+				return
+			}
+			next = &t_api.Request{Kind: t_api.SearchSchedules, SearchSchedules: req}
+		}
+		d.follow(trav, page+1, what)
+		w.submit(next)
+	}
+}
+
+func forge(token string, otherKey bool) string {
+	claims := jwt.MapClaims{}
+	parsed, _ := jwt.ParseWithClaims(token, claims, func(*jwt.Token) (interface{}, error) { return []byte("resonate"), nil })
+	if parsed == nil {
+		return token + "x"
+	}
+	if otherKey {
+		s, err := jwt.NewWithClaims(jwt.SigningMethodHS256, claims).SignedString([]byte("not-the-key"))
+		if err != nil {
+			return token + "x"
+		}
+		return s
+	}
+	// tampered payload, original signature
+	parts := strings.Split(token, ".")
+	if len(parts) != 3 {
+		return token + "x"
+	}
+	if next, ok := claims["Next"].(map[string]any); ok {
+		next["limit"] = 77
+	}
+	b, _ := json.Marshal(claims)
+	parts[1] = base64.RawURLEncoding.EncodeToString(b)
+	return strings.Join(parts, ".")
 }
 
 func (d *driver) pick(xs []string) string { return xs[d.r.Intn(len(xs))] }
@@ -316,6 +440,10 @@ func (d *driver) gen() *t_api.Request {
 			Id: d.pick(d.sched), Description: d.pick([]string{"", "d"}), Cron: d.pick(d.crons), Tags: map[string]string(nil),
 			PromiseId: d.pick([]string{"{{.id}}.{{.timestamp}}", "{{.id}}.{{.timestamp}}", "fixed"}), PromiseTimeout: []int64{0, 1, 500, 1000000}[d.r.Intn(4)],
 			PromiseParam: d.value(), PromiseTags: ptags, IdempotencyKey: d.key()}}
+	case "SearchPromises":
+		return d.searchPromises()
+	case "SearchSchedules":
+		return d.searchSchedules()
 	case "ReadSchedule":
 		return &t_api.Request{Kind: t_api.ReadSchedule, ReadSchedule: &t_api.ReadScheduleRequest{Id: d.pick(d.sched)}}
 	case "DeleteSchedule":
